@@ -5,6 +5,7 @@ from .pool import run_batch, plan
 from .report import Report
 from . import hang
 from . import c09
+from . import san
 from . import c07
 
 LEVELS = {}
@@ -25,6 +26,28 @@ def simple(prop, tier, seed, level, rule, profiles=("debug", "release"), timeout
     return rep.finish()
 
 
+def asan_extra(prop, n):
+    def f(rep):
+        if rep.tier == "thorough":
+            san.sanitizer_pass(rep, prop, "asan", "quick", rep.seed + 500, n)
+    return f
+
+
+def tsan_extra(prop, n):
+    def f(rep):
+        if rep.tier == "thorough":
+            san.sanitizer_pass(rep, prop, "tsan", "quick", rep.seed + 500, n)
+    return f
+
+
+def asan_and_miri(prop, n):
+    def f(rep):
+        if rep.tier == "thorough":
+            san.sanitizer_pass(rep, prop, "asan", "quick", rep.seed + 500, n)
+            san.miri_rt_pass(rep, [rep.seed * 10 + i for i in range(6)])
+    return f
+
+
 def run_C01(tier, seed):
     return simple("C01", tier, seed, "exploration",
                   "cases = seeded insertion sequences x configuration (compression+level, adder, packaging); the first 14 indices "
@@ -34,7 +57,8 @@ def run_C01(tier, seed):
                   "a non-default hint/source). Distinct = hash(compression, level, packaging, adder, run-length sequence of "
                   "(length class, hint, source, dup)).",
                   assumptions=["expected bytes are regenerated from (case seed, call number) by the harness generator",
-                               "the file system of /verif/work behaves (no injected I/O faults in this check)"])
+                               "the file system of /verif/work behaves (no injected I/O faults in this check)",
+                               "thorough: the quick case set is also run under an AddressSanitizer build"], extra=asan_extra("C01", 64))
 
 
 def run_C02(tier, seed):
@@ -69,7 +93,9 @@ def run_C15(tier, seed):
                   "unsorted or sorted on a distinct uint/sint/array key, optional variants carrying a reference; every stored reference "
                   "and every handle returned by add_entry is compared with the position at which the referenced entry is read back. "
                   "Non-trivial = a reference column and >= 2 entries. Distinct = hash(schema, pattern, sortedness, size class, windows).",
-                  assumptions=["final positions are recomputed by the model: insertion order, or a stable sort on the unique key"])
+                  assumptions=["final positions are recomputed by the model: insertion order, or a stable sort on the unique key",
+                               "thorough: the quick case set (incl. 12000-entry stores: rayon parallel sort and par_iter_mut index assignment) is also run under a ThreadSanitizer build"],
+                  extra=tsan_extra("C15", 72))
 
 
 def c14_corpus(rep):
@@ -163,7 +189,8 @@ def run_C13(tier, seed):
                   "cut of cut, ByteSlice->ByteRegion and back. Every view must equal the corresponding sub-range of the regenerated bytes "
                   "(or of the file bytes located by the independent decoder for mmap). Non-trivial = at least one content that is not "
                   "first in its source. Distinct = hash(source kind, operation seed).",
-                  assumptions=["only valid sub-ranges are generated"])
+                  assumptions=["only valid sub-ranges are generated", "thorough: the quick case set is also run under an AddressSanitizer build, and 6 seeds of a small memory-source round trip with the same view operations under Miri (Tree Borrows)"],
+                  extra=asan_and_miri("C13", 96))
 
 
 LAB_RULE = ("specimens built from the seed: four ~2-3 KB containers (OneFile zstd, OneFile uncompressed, TwoFiles lz4, NoConcat lzma; raw and "
@@ -249,6 +276,10 @@ def run_C06(tier, seed):
         rep.add_cases(cases, crash_sig=lab_crash_sig, hang_confirm=confirm)
         rep.errors += errors
         rep.obs_inc(f"damage_cases_run.{profile}", len(cases))
+    if tier == "thorough":
+        # no invalid / uninitialised read on damaged inputs: ASan over the quick damage set, memcheck over a strided subset
+        san.sanitizer_pass(rep, "C06", "asan", "quick", seed, 3000, jobs=16, extra_args=["--case-timeout", "60"])
+        san.valgrind_pass(rep, "C06", "quick", seed, 3, 240, 23)
     rep.exhaustive = (tier == "thorough")
     rep.note("exhaustive_scope", "thorough: every byte x 3 masks and every truncation length of the four small specimens" if tier == "thorough" else "sampled")
     return rep.finish()
@@ -287,6 +318,8 @@ def run_C08(tier, seed):
         if len(hs) > 1:
             rep.add_violation({"kind": "schedule-dependent-content"}, f"C08: sequence {seq} yields {len(hs)} different logical contents depending on the schedule",
                               {"hashes": sorted(hs)}, {"seq": seq}, "release")
+    if tier == "thorough":
+        san.sanitizer_pass(rep, "C08", "tsan", "quick", seed + 500, 12, jobs=4, timeout=1200)
     inv = rep.tally["n"].get("inversions", 0)
     if inv == 0 and rep.evaluations > 0 and not rep.violations:
         rep.inconclusive += rep.evaluations
